@@ -87,8 +87,11 @@ PROPS = {
         "ops": [("c10", "RunSys", {"quick": 360, "thorough": 6000}),
                 ("c01", "RunC01", {"quick": 160, "thorough": 2000}),
                 ("sys", "RunSys", {"quick": 60, "thorough": 1000}),
-                ("c14", "RunC14", {"quick": 150, "thorough": 3000}), ("c06", "RunC06", {"quick": 40, "thorough": 800})],
-        "rule": "op c10: every LightClientMessage union variant (default content), SendLastState / SendLastStateProof / SendBlocksProof(V1) / "
+                ("c14", "RunC14", {"quick": 150, "thorough": 3000}), ("c06", "RunC06", {"quick": 40, "thorough": 800}),
+                ("fh", "RunFH", {"quick": 240, "thorough": 4000})],
+        "rule": "op fh: BlockFilterHashes / BlockFilterCheckPoints / BlockFilters with boundary start numbers {0,1,..,2^32-1,2^63,2^64-2,2^64-1}, empty / short / long "
+                "vectors, shorter re-sends of accepted hashes and random bytes, delivered to the filter protocol of a client with finalized check points, cached and "
+                "latest hashes and a proven peer; op c10: every LightClientMessage union variant (default content), SendLastState / SendLastStateProof / SendBlocksProof(V1) / "
                 "SendTransactionsProof(V1) with boundary values {0,1,2,2^32-1,2^63-1,2^63,2^64-1} / {0,1,2^256-2,2^256-1} on every numeric field, header "
                 "vectors of length 0,1,2,3,11, consistent and inconsistent chain-root commitments, well-formed and garbage extra table fields, "
                 "truncations, bit flips, byte noise and random bytes, delivered in six peer states (no peer, requested last state, requested first proof, "
@@ -128,8 +131,11 @@ PROPS = {
         "trusted_base": ["modelled: update_filter_scripts, filter_block, rollback_to_block, update_block_number, add_fetched_tx, matched-block records"],
     },
     "C04": {
-        "ops": [("c03", "RunC03", {"quick": 300, "thorough": 5000}), ("sys", "RunSys", {"quick": 80, "thorough": 1500})],
-        "rule": "op c03: storage-level histories with rollback_to_block followed by a different branch, every step's dump compared with Model/Store.v and (static script "
+        "ops": [("c03", "RunC03", {"quick": 300, "thorough": 5000}), ("sys", "RunSys", {"quick": 80, "thorough": 1500}),
+                ("fh", "RunFH", {"quick": 240, "thorough": 4000})],
+        "rule": "op fh (fork histories): two honest peers deliver filter hashes, the chain reorganises within last-N, both prove the new tip, every filter-hash "
+                "request is answered from the new branch: no ban, and the hashes trusted afterwards are the new branch's; "
+                "op c03: storage-level histories with rollback_to_block followed by a different branch, every step's dump compared with Model/Store.v and (static script "
                 "set) the cell index with the ground-truth UTXO set of the branch that is current; op sys: whole-client histories with competing chains, fork switches "
                 "and restarts compared with Model/System.v (stored tip, last-N, pending records after commit_prove_state)",
         "assumptions": ["RocksDB WriteBatch atomicity and ordering trusted", "honest peers answer with the RFC-44 prover re-implemented in the harness"],
@@ -148,8 +154,11 @@ PROPS = {
         "trusted_base": ["modelled: update_filter_scripts, update_block_number, matched-block records"],
     },
     "C06": {
-        "ops": [("c06", "RunC06", {"quick": 60, "thorough": 1200})],
-        "rule": "whole-client worlds (light-client + filter + sync handlers over one store): chains of 38..64 blocks with transaction bodies, real block filters and filter "
+        "ops": [("c06", "RunC06", {"quick": 60, "thorough": 1200}), ("fh", "RunFH", {"quick": 240, "thorough": 4000})],
+        "rule": "op fh: BlockFilterHashes messages (authentic ranges at every position relative to the finalized / cached check points and to what is stored, "
+                "overlaps, shorter re-sends, wrong parent / hash, other branch, boundary start numbers, unproven senders) against Model/HashesUpdate.v: the per-peer "
+                "and the cached filter hashes only grow at their end, anchored at finalized check points; "
+                "whole-client worlds (light-client + filter + sync handlers over one store): chains of 38..64 blocks with transaction bodies, real block filters and filter "
                 "hash chains; 1..3 proven peers (real handshake), finalized check points 0..3, cached / latest filter hashes complete, partial or empty, min filtered block "
                 "number anywhere; BlockFilters messages honest and mutated (tampered or foreign filter, shifted start, count mismatch, substituted block hash, empty, "
                 "unproven or unknown sender, swapped entries, other branch, over-long batch); the immediate effect is compared with Model/Filters.v; matched blocks are "
